@@ -429,9 +429,12 @@ def check_streams(log, mon):
         if len(opev) != len(call["ops"]):
             continue
         delivered = {}  # buffer tensor equivalence id -> (dst address, length, depth)
+        dma_written = set()  # equivalence ids of every tensor some DMA of this stream writes
         ncores = call["arch"].ncores
         for ev, apiop in zip(opev, call["ops"]):
             cmd = call["op_to_cmd"].get(apiop)
+            if ev.kind == "dma" and isinstance(cmd, DMA) and cmd.out_tensor is not None:
+                dma_written.add(str(cmd.out_tensor.equivalence_id))
             if ev.kind == "dma" and isinstance(cmd, DMA) and cmd.in_tensor.purpose == TensorPurpose.Weights:
                 d = decode.dma_fields(ev.op)
                 depth = int(cmd.box.start_coord[-1])
@@ -459,6 +462,21 @@ def check_streams(log, mon):
                     if sorted(x for x in scl if x) != sorted(exp):
                         mon.v("scale-section-length-differs-from-the-channels-written", "%s writes OFM channels [%d,%d) on %d core(s): scale section lengths %s, one record per channel needs %s" % (
                             cmd.ps.primary_op.name, z0, z1, ncores, scl, exp))
+                # a scale tensor of its own (same weights as another operator, other biases / scales), read where the constants lie: each core's scale section starts
+                # at that tensor's own range offset for (core, depth slice)
+                st = getattr(cmd, "scale_tensor", None)
+                if st is not None and st is not cmd.weight_tensor and getattr(st, "encoded_ranges", None) and str(st.equivalence_id) not in dma_written and st.address is not None and F.kind in ("conv", "depthwise"):
+                    want = {}
+                    for core in range(ncores):
+                        r_ = st.encoded_ranges.get(WeightKey(core, z0))
+                        if r_ is not None and r_.scale_bytes:
+                            want[int(st.address + r_.offset)] = int(wsref.round_up(r_.scale_bytes, 16))
+                    have = {int(a): int(ln) for (a, ln) in (getattr(F, "scales", None) or []) if ln}
+                    if want:
+                        c["standalone_scale_sections_checked"] = c.get("standalone_scale_sections_checked", 0) + 1
+                        if set(have) != set(want):
+                            mon.v("standalone-scale-section-address-differs-from-its-range-offset", "%s (OFM channels from %d): scale sections programmed at %s, the scale tensor %s has its ranges at %s" % (
+                                cmd.ps.primary_op.name, z0, sorted(have), st.name, sorted(want)))
                 got = delivered.get(str(cmd.weight_tensor.equivalence_id))
                 if got is None or not getattr(F, "weights", None):
                     continue
